@@ -15,7 +15,7 @@ func init() {
 	register("C14", "other", []string{
 		"decides: the goroutine that runs Task.Fn is launched only on the error-list-empty edge; the cancellation arm appends to that list on its first observation; the completion arm appends an error wrapping (%w) the task's error unless it is ErrorSkipParents, in which case every (transitive) parent is marked skip; the gated branch reports ErrorTaskSkipped, the skip branch reports nil; Run returns the error list iff it is non-empty",
 		"'in-flight tasks are allowed to finish' is a liveness clause and is not decided",
-	}, rC14Gate, rC14Completion, rC14Branches, rC14Result, func(w *World, r *Report) { subRule(w, r, rC16Edges, "R14.5", "skip propagation walks Parents while readiness walks Children: both lists are recorded symmetrically (same obligations as C16 R16.6)", 2) })
+	}, rC14Gate, rC14Completion, rC14Branches, rC14Result, func(w *World, r *Report) { subRule(w, r, rC16Edges, "R14.5", "skip propagation walks Parents while readiness walks Children: both lists are recorded symmetrically (same obligations as C16 R16.6)", 2) }, func(w *World, r *Report) { subRule(w, r, rC13Completion, "R14.6", "the error that reaches the scheduler is the task's last result (same obligations as C13 R13.5)", 4) }, func(w *World, r *Report) { subRule(w, r, rC13RetryLoop, "R14.7", "same obligations as C13 R13.4", 3) })
 	register("C15", "other", []string{
 		"decides: the semaphore is made with capacity maxParallel (only set to positive values), acquired before Task.Fn and released only in a deferred function; the per-Task mutex is taken before Fn and released by defer; every use of the output writer is inside a bufferMutex critical section; in serial mode nothing is offered while any vertex is in progress",
 		"the bound itself follows from channel semantics (trusted)",
@@ -23,7 +23,7 @@ func init() {
 	register("C16", "other", []string{
 		"decides: the cycle check dominates the scheduler loop; the vertex table is insert-only (edges keep pointing at live vertices); no completion is lost (C13 R13.5); all-done is declared exactly when every vertex is counted done; every accepted offer launches a goroutine; edges are recorded symmetrically; the depth-first sort has the three-colour shape (cycle ⇒ ErrorGraphHasCycle, post-order append, every vertex visited)",
 		"termination and work conservation as liveness properties are not decided, only these necessary conditions",
-	}, rC16CycleCheck, rC16InsertOnly, func(w *World, r *Report) { subRule(w, r, rC13Completion, "R16.3", "no completion is lost (same obligations as C13 R13.5)", 4) }, rC16AllDone, rC16Launch, rC16Edges, rC16DFS)
+	}, rC16CycleCheck, rC16InsertOnly, func(w *World, r *Report) { subRule(w, r, rC13Completion, "R16.3", "no completion is lost (same obligations as C13 R13.5)", 4) }, rC16AllDone, rC16Launch, rC16Edges, rC16DFS, func(w *World, r *Report) { subRule(w, r, rC15Semaphore, "R16.8", "capacity is returned: one acquire per goroutine, released on exit (same obligations as C15 R15.1)", 5) })
 }
 
 // subRule re-runs another rule function and files its obligations under a new id.
@@ -392,6 +392,18 @@ func rC14Completion(w *World, r *Report) {
 	isHead := func(in ssa.Instruction) bool { return in.Block() == hdr && in == hdr.Instrs[0] }
 	ok1, _ := igs.mustPass(igs.edgeStart(hdr, 0), isMark, isHead)
 	ok2, _ := igs.mustPass(igs.edgeStart(hdr, 0), isRec, isHead)
+	for lb := range naturalLoop(hdr) {
+		for _, li := range lb.Instrs {
+			if _, isRet := li.(*ssa.Return); isRet {
+				ok1 = false
+			}
+		}
+		for _, sc := range lb.Succs {
+			if !naturalLoop(hdr)[sc] && lb != hdr {
+				ok1 = false
+			}
+		}
+	}
 	ru.Check(ok1 && ok2, "skipParents/mark-and-recurse", w.Pos(sp.Pos()), "every parent: status = runSkip; skipParents(parent)", "skip propagation does not reach every transitive dependent")
 }
 
@@ -581,6 +593,7 @@ func rC15Semaphore(w *World, r *Report) {
 	ig := buildIG(target)
 	okDom, _ := ig.mustPass([]int{0}, func(in ssa.Instruction) bool { return in == ssa.Instruction(send) }, func(in ssa.Instruction) bool { return in == ssa.Instruction(fnCall) })
 	ru.Check(okDom, "semaphore/acquire-before-fn", w.IPos(send), "acquired on every path before Task.Fn", "Task.Fn can run without holding a semaphore slot")
+	ru.Check(!blockInCycle(send.Block()), "semaphore/acquire-once", w.IPos(send), "one slot per goroutine", "the semaphore is acquired inside a loop (one slot per attempt, released only at exit): a retried task can exhaust the capacity and block on itself")
 	// receives: only in deferred closures of target
 	recvFns := map[*ssa.Function]bool{}
 	for _, f := range w.Funcs {
@@ -660,6 +673,7 @@ func rC15TaskLock(w *World, r *Report) {
 	} else {
 		ok, _ := ig.mustPass([]int{0}, func(in ssa.Instruction) bool { return in == lock }, func(in ssa.Instruction) bool { return in == ssa.Instruction(fnCall) })
 		ru.Check(ok, "task-lock/acquire", w.IPos(lock), "locked on every path before Task.Fn", "Task.Fn can run without the Task lock")
+		ru.Check(!blockInCycle(lock.Block()), "task-lock/acquire-once", w.IPos(lock), "locked once per goroutine", "the Task lock is taken inside a loop while it is only released at exit: the second attempt deadlocks")
 	}
 	if unlock == nil {
 		ru.Bad("task-lock/release", w.IPos(fnCall), "the Task lock is not released by defer (or is released before the task finished)")
@@ -672,6 +686,20 @@ func rC15TaskLock(w *World, r *Report) {
 		if _, isDefer := c.(*ssa.Defer); !isDefer {
 			ru.Bad("task-lock/early-release", w.IPos(c), "the Task lock is released by a plain call")
 		}
+	}
+	// the Task stored in the vertex is the caller's own *Task (its mutex is what is shared between graphs)
+	if at := w.Fn("(*dag.Graph).addTask"); at != nil {
+		n := 0
+		good := true
+		eachInstr(at, func(in ssa.Instruction) {
+			if _, f, v, ok := storeField(in); ok && f.Name() == "Task" {
+				n++
+				if v != ssa.Value(at.Params[1]) {
+					good = false
+				}
+			}
+		})
+		ru.Check(good && n > 0, "task-lock/shared-object", w.Pos(at.Pos()), "the vertex keeps the caller's *Task", "the graph stores a private copy of the Task: graphs sharing a Task no longer share its lock")
 	}
 	// wrappers
 	for _, t := range []struct{ wrap, inner string }{{"(*dag.Task).Lock", "(*sync.Mutex).Lock"}, {"(*dag.Task).Unlock", "(*sync.Mutex).Unlock"}} {
